@@ -467,7 +467,12 @@ def oracle_c09(cases):
                 # frame
                 for g2 in set(before["groups"]) | set(after["groups"]):
                     if g2 != gid and before["groups"].get(g2) != after["groups"].get(g2):
-                        fail(c, k, "rollback-touches-other-group", f"group {g2} changed by rollback of group {gid}")
+                        b2, a2 = before["groups"].get(g2) or {}, after["groups"].get(g2) or {}
+                        diff = {x: (str(b2.get(x))[:80], str(a2.get(x))[:80]) for x in set(b2) | set(a2) if b2.get(x) != a2.get(x)}
+                        # only the by-nostr-id lookup of the other group changed: the restored record brought back a nostr
+                        # id that another group holds by now (open finding restore-nostr-id-collision, shared with C08/C10)
+                        sig = "restore-nostr-id-collision" if set(diff) == {"nostr"} else "rollback-touches-other-group"
+                        fail(c, k, sig, f"group {g2} changed by rollback of group {gid}: {diff}")
                 if (before["P"], before["W"], before["Q"]) != (after["P"], after["W"], after["Q"]):
                     fail(c, k, "rollback-destroys-records", "processed-message / welcome / processed-welcome records changed")
                 if {g: r for g, r in before["mls"].items() if g != gid} != {g: r for g, r in after["mls"].items() if g != gid}:
